@@ -912,6 +912,14 @@ impl Xot {
                 ));
             }
         }
+        // a node cannot be moved below itself or one of its own descendants;
+        // refuse before anything is changed (and before a cycle can be created
+        // by the sibling insertion functions)
+        if self.ancestors(parent).any(|ancestor| ancestor == child) {
+            return Err(Error::InvalidOperation(
+                "Cannot move a node below itself or one of its descendants".into(),
+            ));
+        }
         Ok(())
     }
 
